@@ -191,6 +191,9 @@ func probe(gamePort int, specs []string) []string {
 			chosenPort, chosenVer = r.Port, "?"
 		}
 	}
+	if chosenVer == "" && chosenPort >= 0 {
+		chosenVer = "?" // the debug line is there but its dialect member is not a string any more, or has another name
+	}
 	if errors.Is(perr, portprober.ErrPortDiscoveryFailed) {
 		return []string{"failed"}
 	}
